@@ -13,6 +13,7 @@
 package c16
 
 import (
+	"context"
 	"encoding/json"
 	"fmt"
 	"strings"
@@ -39,6 +40,7 @@ type Work struct {
 	Epilogue  bool   `json:"epilogue"`
 	FwdSpawn  int    `json:"fwd_spawn"`
 	MutateArg bool   `json:"mutate_arg"` // parent mutates the variable passed to go right after spawning
+	CtxMode   int    `json:"ctx_mode,omitempty"` // 0 simulated cancellable context, 1 context.Background()
 }
 
 type Prop struct{}
@@ -74,6 +76,9 @@ func (Prop) Gen(seed int64, tier string) *harness.Case {
 	w.Epilogue = r.Intn(2) == 0
 	w.FwdSpawn = r.Intn(2)
 	w.MutateArg = r.Intn(2) == 0
+	if r.Intn(4) == 0 {
+		w.CtxMode = 1
+	}
 	wb, _ := json.Marshal(w)
 	density := []int{0, 5, 20, 50, 80}[r.Intn(5)]
 	total := 0
@@ -298,7 +303,11 @@ func (Prop) Run(t *testing.T, c *harness.Case, verbose bool) *harness.Result {
 		})
 		e.Define("sleep", func(ms int64) { simrt.Sleep(time.Duration(ms) * time.Millisecond) })
 		sim.Spawn("main", func() {
-			mainVal, mainErr = vm.RunContext(ctx, e, &vm.Options{Debug: false}, stmt)
+			if w.CtxMode == 1 {
+				mainVal, mainErr = vm.RunContext(context.Background(), e, &vm.Options{Debug: false}, stmt)
+			} else {
+				mainVal, mainErr = vm.RunContext(ctx, e, &vm.Options{Debug: false}, stmt)
+			}
 			mainDone = true
 		})
 		res.Outcome = sim.Run()
@@ -457,6 +466,11 @@ func (Prop) Shrink(c *harness.Case) []*harness.Case {
 	if w.Elem != "int64" {
 		nw := cp()
 		nw.Elem = "int64"
+		emit(nw)
+	}
+	if w.CtxMode != 0 {
+		nw := cp()
+		nw.CtxMode = 0
 		emit(nw)
 	}
 	if w.ConsForm != 0 {
